@@ -752,16 +752,20 @@ static inline int myth_timedjoin_body(myth_thread_t th,
 				      void **result,
 				      const struct timespec *abstime) {
   if (myth_tryjoin_body(th, result) == 0) {
+    MYTH_VERIF_POINT(MYTH_VP_TIMEDJOIN_TRY, th, 0, 0);
     return 0;
   } else {
     struct timespec tp[1];
+    MYTH_VERIF_POINT(MYTH_VP_TIMEDJOIN_TRY, th, 0, 1);
     while (1) {
       int err = hr_gettime(tp);
       assert(err == 0);
       if (myth_timespec_gt(tp, abstime)) return EBUSY;
       if (myth_tryjoin_body(th, result) == 0) {
+	MYTH_VERIF_POINT(MYTH_VP_TIMEDJOIN_TRY, th, 0, 0);
 	return 0;
       } else {
+	MYTH_VERIF_POINT(MYTH_VP_TIMEDJOIN_TRY, th, 0, 1);
 	myth_yield_ex_body(myth_yield_option_local_first);
       }
     }
@@ -1013,6 +1017,7 @@ static inline int myth_yield_ex_body(int opt) {
   myth_thread_t next;
   (void)_;
   myth_assert(th);
+  MYTH_VERIF_POINT(MYTH_VP_YIELD, th, 0, opt);
 #if MYTH_YIELD_DEBUG
   myth_dprintf("myth_yield:thread %p yields execution to scheduler\n",th);
 #endif
